@@ -107,6 +107,14 @@ pub struct Sender<T: ChannelItem>(SenderExt<T>);
 #[derive(Debug)]
 pub struct Receiver<T: ChannelItem>(ReceiverExt<T>);
 
+#[cfg(feature = "verif")]
+impl<T: ChannelItem> Sender<T> {
+    /// Number of messages currently queued in the channel (verification hook).
+    pub fn queued(&self) -> usize {
+        self.0.len()
+    }
+}
+
 impl<T: ChannelItem> Sender<T> {
     /// Send a message in the channel, blocking if it's full.
     #[inline]
